@@ -113,6 +113,7 @@ class Pair(Vector):
 
         # Construct the object
         obj = Pair(new_values, self._mask_, example=self)
+        obj._readonly_ = self._readonly_    # the result is a view of this object
 
         # Fill in the derivatives if necessary
         if recursive:
